@@ -142,6 +142,12 @@ pub fn event<T: DateRoll>(key: &str, kind: &str, cal: &T, lo: i64, hi: i64, q: V
            "stl": bitmap(lo, hi, |d| cal.is_settlement(d)),
            "q": q})
 }
+/// what a `Cal` was BUILT from, next to what it answers: the supplied holiday list (in the order supplied, window part)
+/// and week mask, with the object's own is_bus_day bitmap - the specification holds the two together
+pub fn cal_def(c: &Cal, hols: &[NaiveDateTime], mask: &[u8], lo: i64, hi: i64) -> Value {
+    let h: Vec<i64> = hols.iter().map(nd).filter(|d| *d >= lo && *d <= hi).collect();
+    json!({"bits": bitmap(lo, hi, |d| c.is_bus_day(d)), "hols": h, "mask": mask})
+}
 /// the same, with the projections of the individually built member / settlement calendars of a union
 pub fn event_u<T: DateRoll>(key: &str, kind: &str, cal: &T, parts: (&Vec<Cal>, &Option<Vec<Cal>>), lo: i64, hi: i64, q: Vec<Value>) -> Value {
     let mut e = event(key, kind, cal, lo, hi, q);
@@ -194,12 +200,22 @@ pub fn replay(cases: &str, out: &str) {
         wd.enter(&format!("gen/{}", i));
         let (lo, hi) = (c["lo"].as_i64().unwrap(), c["hi"].as_i64().unwrap());
         let (q0, q1, nmax) = (c["q0"].as_i64().unwrap(), c["q1"].as_i64().unwrap(), c["nmax"].as_i64().unwrap());
-        let bcal = Cal::new(days(&c["bh"]), mask(&c["mask"]));
-        let scal = Cal::new(days(&c["sh"]), mask(&c["mask"]));
+        // (TLC writes the holiday sets in ascending order; every other case hands them to the constructor reversed, every
+        //  third rotated, so that nothing downstream can rely on a sorted list)
+        let disorder = |mut v: Vec<NaiveDateTime>| -> Vec<NaiveDateTime> {
+            if i % 2 == 1 { v.reverse(); }
+            if i % 3 == 2 && v.len() > 1 { v.rotate_left(1); }
+            v
+        };
+        let (bh, sh) = (disorder(days(&c["bh"])), disorder(days(&c["sh"])));
+        let bcal = Cal::new(bh.clone(), mask(&c["mask"]));
+        let scal = Cal::new(sh.clone(), mask(&c["mask"]));
         // plain Cal : no settlement dimension; emitted once per distinct (bh, mask), i.e. when sh is empty
         if c["sh"].as_array().unwrap().is_empty() {
             let q = battery(&bcal, q0, q1, nmax, true);
-            o.emit(&event(&format!("gen/{}/Cal", i), "Cal", &bcal, lo, hi, q));
+            let mut e = event(&format!("gen/{}/Cal", i), "Cal", &bcal, lo, hi, q);
+            e["defs"] = json!([cal_def(&bcal, &bh, &mask(&c["mask"]), lo, hi)]);
+            o.emit(&e);
             let pc = PyCal(bcal.clone());
             let q = battery(&pc, q0, q1, nmax, true);
             o.emit(&event(&format!("gen/{}/PyCal", i), "PyCal", &pc, lo, hi, q));
@@ -343,7 +359,9 @@ pub fn record(seed: u64, n: usize, out: &str) {
                 let common = r.below(5) as u8;
                 let mask = rand_mask(&mut r, common);
                 let (centre, lo, hi) = window(&mut r, 7 - mask.len() as i64);
-                let c = Cal::new(rand_hols(&mut r, lo, hi, centre), mask);
+                let hols = rand_hols(&mut r, lo, hi, centre);
+                let c = Cal::new(hols.clone(), mask.clone());
+                let def = cal_def(&c, &hols, &mask, lo, hi);
                 wd.enter(&format!("rnd/{}/Cal", i));
                 if r.chance(0.3) {
                     let pc = PyCal(c);
@@ -353,7 +371,9 @@ pub fn record(seed: u64, n: usize, out: &str) {
                 } else {
                     let q = random_queries(&c, &mut r, centre, nq, lo, hi);
                     wd.leave();
-                    o.emit(&event(&format!("rnd/{}/Cal", i), "Cal", &c, lo, hi, q));
+                    let mut e = event(&format!("rnd/{}/Cal", i), "Cal", &c, lo, hi, q);
+                    e["defs"] = json!([def]);
+                    o.emit(&e);
                 }
             }
             1 | 2 => {
@@ -364,28 +384,35 @@ pub fn record(seed: u64, n: usize, out: &str) {
                 // working weekdays of the union of all members and settlement calendars
                 let working = (0..7u8).filter(|w| masks.iter().all(|m| !m.contains(w))).count() as i64;
                 let (centre, lo, hi) = window(&mut r, working);
-                let members: Vec<Cal> =
-                    (0..nm as usize).map(|k| Cal::new(rand_hols(&mut r, lo, hi, centre), masks[k].clone())).collect();
+                let mut defs = vec![];
+                let mut build = |r: &mut Rng, m: &Vec<u8>| -> Cal {
+                    let hols = rand_hols(r, lo, hi, centre);
+                    let c = Cal::new(hols.clone(), m.clone());
+                    defs.push(cal_def(&c, &hols, m, lo, hi));
+                    c
+                };
+                let members: Vec<Cal> = (0..nm as usize).map(|k| build(&mut r, &masks[k])).collect();
                 let settle: Option<Vec<Cal>> = if ns == 0 && r.coin() {
                     None
                 } else {
-                    Some((0..ns as usize).map(|k| Cal::new(rand_hols(&mut r, lo, hi, centre), masks[nm as usize + k].clone())).collect())
+                    Some((0..ns as usize).map(|k| build(&mut r, &masks[nm as usize + k])).collect())
                 };
                 let u = UnionCal::new(members.clone(), settle.clone());
+                let with_defs = |mut e: Value| -> Value { e["defs"] = json!(defs); e };
                 if r.chance(0.3) {
                     let pu = PyUnion(u);
                     wd.enter(&format!("rnd/{}/PyUnionCal", i));
                     let q = random_queries(&pu, &mut r, centre, nq, lo, hi);
-                    o.emit(&event_u(&format!("rnd/{}/PyUnionCal", i), "PyUnionCal", &pu, (&members, &settle), lo, hi, q));
+                    o.emit(&with_defs(event_u(&format!("rnd/{}/PyUnionCal", i), "PyUnionCal", &pu, (&members, &settle), lo, hi, q)));
                 } else if r.coin() {
                     wd.enter(&format!("rnd/{}/UnionCal", i));
                     let q = random_queries(&u, &mut r, centre, nq, lo, hi);
-                    o.emit(&event_u(&format!("rnd/{}/UnionCal", i), "UnionCal", &u, (&members, &settle), lo, hi, q));
+                    o.emit(&with_defs(event_u(&format!("rnd/{}/UnionCal", i), "UnionCal", &u, (&members, &settle), lo, hi, q)));
                 } else {
                     let t = CalType::UnionCal(u);
                     wd.enter(&format!("rnd/{}/CalType", i));
                     let q = random_queries(&t, &mut r, centre, nq, lo, hi);
-                    o.emit(&event_u(&format!("rnd/{}/CalType", i), "CalType", &t, (&members, &settle), lo, hi, q));
+                    o.emit(&with_defs(event_u(&format!("rnd/{}/CalType", i), "CalType", &t, (&members, &settle), lo, hi, q)));
                 }
                 wd.leave();
             }
